@@ -168,6 +168,8 @@ def cases(seed, tier):
         req = [rng.choice(lin)] if i % 2 == 0 else sorted(set(lin + [nm for nm in FAMS[fam][0] if rng.random() < 0.4]))
         out.append(_mk(rng, seed, "lin", i, group="linear_second", fam=fam, order=2, req=req,
                        n=rng.choice([3, 5, 7, 20]) if fam not in ("gauss", "expdecay") else rng.choice([20, 100])))
+    from vf import c13_extra
+    out.extend(c13_extra.cases(seed, tier))
     return out
 
 
@@ -322,6 +324,9 @@ def _maxabs(t):
 
 # ------------------------------------------------------------------------------------------------ the monitor
 def run_case(desc):
+    if desc.get("group") == "extra":
+        from vf import c13_extra
+        return c13_extra.run_case(desc)
     from xitorch.integrate import quad
     obs = Obs(desc)
     dt = torch.float64
